@@ -3,6 +3,7 @@ import Modbus.Driver.Regs
 import Modbus.Driver.Split
 import Modbus.Driver.Extract
 import Modbus.Driver.Client
+import Modbus.Driver.Asm
 import Std.Data.HashSet
 import Std.Data.HashMap
 /-
@@ -44,7 +45,11 @@ def dispatch (prop : String) (ts : List String) : Option Family :=
           match parseDoOp ts with
           | some op => some { modelOut := op.modelOut, kf := op.kf prop, expect := op.judge prop,
                               kind := "do:" ++ (ts.getD 1 "?") }
-          | none => none
+          | none =>
+            match parseAsmOp ts with
+            | some op => some { modelOut := op.modelOut, kf := op.kf prop, expect := op.judge prop,
+                                kind := "asm:" ++ (ts.getD 1 "?") }
+            | none => none
 
 structure St where
   lines : Nat := 0
